@@ -6,7 +6,10 @@ def cfg_text(constants, invariants=(), properties=(), spec="Spec", view=None, co
              deadlock=False, extra=""):
     lines = ["SPECIFICATION " + spec, "CONSTANTS"]
     for k, v in constants.items():
-        lines.append(" %s = %s" % (k, v))
+        if str(v).startswith("<-"):
+            lines.append(" %s <- %s" % (k, str(v)[2:].strip()))
+        else:
+            lines.append(" %s = %s" % (k, v))
     for i in invariants:
         lines.append("INVARIANT " + i)
     for p in properties:
@@ -24,7 +27,8 @@ def cfg_text(constants, invariants=(), properties=(), spec="Spec", view=None, co
 
 
 def constants_block(constants):
-    return "\n".join(" %s = %s" % (k, v) for k, v in constants.items())
+    return "\n".join((" %s <- %s" % (k, str(v)[2:].strip())) if str(v).startswith("<-") else (" %s = %s" % (k, v))
+                     for k, v in constants.items())
 
 
 def mc(module_file, constants, ctx, name, invariants=(), properties=(), view="View", constraint=None, deadlock=False,
